@@ -157,7 +157,7 @@ class Runtime:
                 return 'rec:%d' % (it + 1)
         return o
 
-    def finish(self, run, nid, kw, k):
+    def finish(self, run, nid, kw, k, reused=False):
         from ml_pipeline_engine.types import Recurrent
         o = self.outcome(run, nid, kw, k)
         if o.startswith('raise:'):
@@ -173,7 +173,7 @@ class Runtime:
             self.log(e='BodyEnd', r=run, n=nid, kw=kw, k=k, out=('rec', data), t=self.now_ms())
             return Recurrent(data=data)
         if o == 'ok':
-            val = ('v', nid, kw)
+            val = ('v', nid + '!reused-instance' if reused else nid, kw)
             ret = val
         elif o == 'none':
             val, ret = ('none',), None
@@ -187,7 +187,7 @@ class Runtime:
         self.log(e='BodyEnd', r=run, n=nid, kw=kw, k=k, out=('ok', val), t=self.now_ms())
         return ret
 
-    async def body_async(self, nid, kwargs):
+    async def body_async(self, nid, kwargs, reused=False):
         run, kw, k = self.begin(nid, kwargs)
         if self.virtual:
             gate = self.loop.new_gate('body', info=(run, nid))
@@ -198,9 +198,9 @@ class Runtime:
                 raise
         else:
             await asyncio.sleep(self.jitter(run, nid, k) if self.jitter else 0)
-        return self.finish(run, nid, kw, k)
+        return self.finish(run, nid, kw, k, reused)
 
-    def body_sync(self, nid, kwargs):
+    def body_sync(self, nid, kwargs, reused=False):
         pre = self._pre
         self._pre = None
         if pre is not None and pre[1] == nid:
@@ -210,7 +210,7 @@ class Runtime:
             if not self.virtual and self.jitter:
                 import time
                 time.sleep(self.jitter(run, nid, k))
-        return self.finish(run, nid, kw, k)
+        return self.finish(run, nid, kw, k, reused)
 
     def default(self, nid, kwargs):
         run = CUR_RUN.get()
